@@ -282,7 +282,11 @@ def gen_project(rng, kind="main"):
         if usable and c1.env.get("m") == c0.env.get("m"):
             d = Rule(r0.ref, r0.l10n, r0.locales, rng.sample(TESTS, rng.randint(1, 2)))
             z = rng.random()
-            if z < 0.15 and d.ref is not None:
+            in_exclude = getattr(c1, "is_exclude", False) or any(
+                c1.rel in p.cfgs[x].includes for x in top.excludes)
+            if in_exclude:
+                pass        # both sides of an excluded rule stay parallel (see `exclude-l10n-only`)
+            elif z < 0.15 and d.ref is not None:
                 d.ref = "other/" + d.ref
             elif z < 0.3:
                 d.ref = None if rng.random() < 0.5 else d.ref
@@ -307,7 +311,9 @@ def gen_project(rng, kind="main"):
         top.rules.append(Rule("%s/en/{nope}/*.ftl" % m, "l10n/{locale}/%s/{nope}/*.ftl" % m))
         p.flags.add("unbound")
     # an alternative root for one child
-    if children and rng.random() < 0.12:
+    if children and not top.excludes and rng.random() < 0.15:
+        # (with excludes, another root reaches the excluded l10n paths from reference files the
+        # excluded rules do not match: the defect of stream `exclude-l10n-only`)
         c = children[-1]
         if not getattr(c, "is_exclude", False) and not c.includes:
             c.basepath = "alt" if c.basepath in (None, ".") else c.basepath + "/alt"
